@@ -44,9 +44,10 @@ Theorem C06_meaning :
 Proof. exact tff_of_formula_sat. Qed.
 Print Assumptions C06_meaning.
 
-(* rendering fails (panics) only on the numeral isize::MIN *)
+(* rendering is total: it never fails (panics).  Before the repair of finding F3b the statement
+   excluded formulas containing the numeral isize::MIN ([no_panic F = true ->]). *)
 Theorem C06_total :
-  forall F : formula, no_panic F = true -> tptp_print F = Some (print_formula F).
+  forall F : formula, tptp_print F = Some (print_formula F).
 Proof. exact tptp_print_total. Qed.
 Print Assumptions C06_total.
 
@@ -82,3 +83,14 @@ Example C06_ex_mixed_text :
   tptp_format ex_mixed =
   Some "![N_i: $int, X_g: general]: ($less(N_i, $uminus(2)) => (p(X_g, f__symbolic__(a)) | q))".
 Proof. vm_compute. reflexivity. Qed.
+(* p(-9223372036854775808)  (finding F3b, repaired: the rendering of isize::MIN panicked in debug
+   builds): rendered with the magnitude 2^63, read back as $uminus(2^63) *)
+Definition ex_f3b : formula := FAtomic (AAtom "p" [GInt (INum isize_min)]).
+Example C06_ex_f3b_text :
+  tptp_format ex_f3b = Some "p(f__integer__($uminus(9223372036854775808)))".
+Proof. vm_compute. reflexivity. Qed.
+Example C06_ex_f3b_read :
+  wf_tptp ex_f3b = true /\
+  tff_read (print_formula ex_f3b) =
+  Some (TPred "p" [TApp "f__integer__" [TApp "$uminus" [TNum 9223372036854775808]]]).
+Proof. split; vm_compute; reflexivity. Qed.
